@@ -31,7 +31,14 @@ RULE = ('(a) BFS over histories of ops {connect, status, disconnect, '
         'dedup on canonical system state + model state.  (b) all schedules '
         'with <= 2 (quick) / 3 (thorough) preemptions of two user threads '
         'issuing one or two lifecycle calls each, from start states {fresh, '
-        'in play, after disconnect, after refused connect}.  states = '
+        'in play, after disconnect, after refused connect}, plus a server '
+        'trigger (kick / garbage / keep-alive 99) racing user calls from '
+        'the play state, plus disconnect / disconnect(immediate) racing the '
+        'networking thread from {version negotiation in flight, encryption '
+        'request in flight}; judged additionally on real-time order: a '
+        'disconnect called after every accepted start returned must leave '
+        'nothing alive, an accepted connect called after every disconnect '
+        'returned must yield a live play connection.  states = '
         'distinct canonical states (BFS) + distinct hashed scheduler states; '
         'transitions = ops applied + scheduling points; traces = histories '
         'and schedules executed on the real code.')
@@ -542,6 +549,10 @@ def bfs(ctx, depth, dedup=True, label='bfs'):
 # (b) schedules
 
 STARTS = ('fresh', 'play', 'disconnected', 'refused')
+# extra start state used by a few programs only: a multi-version connect()
+# has been issued and its status query is in flight
+NEGOTIATING = 'negotiating'
+ENCRYPTING = 'encrypting'      # connect() issued, server will ask for encryption
 PROGS = {
     'connect||connect': ([('connect',)], [('connect',)]),
     'connect||disc': ([('connect',)], [('disc',)]),
@@ -583,13 +594,18 @@ def sched_body(W, start, prog):
     from vf import protoids
 
     def factory(conn):
-        srv = RefServer(conn, protoids.ids, W.rank, login=[('success',)],
+        login = [('success',)]
+        if start == ENCRYPTING and not W.servers:
+            login = [('encrypt', 'srv', b'\x01\x02\x03\x04'), ('success',)]
+        srv = RefServer(conn, protoids.ids, W.rank, login=login,
+                        rsa=harness.rsa_key(),
                         status={'json': status_json(protocol=V,
                                                     name='1.18.1')})
         W.servers.append(srv)
         return srv
     W.net.endpoints = Ep()
-    conn = W.connection(allowed_versions={V},
+    conn = W.connection(allowed_versions={V, 340} if start == NEGOTIATING
+                        else {V},
                         handle_exception=lambda e, i: errs.append(
                             type(e).__name__),
                         handle_exit=lambda: exits.append(1))
@@ -615,6 +631,8 @@ def sched_body(W, start, prog):
             conn.connect()
         except ConnectionRefusedError:
             pass
+    elif start in (NEGOTIATING, ENCRYPTING):
+        conn.connect()          # first packets sent, reply not yet processed
     viol = []
 
     def do(tid, i, op):
@@ -671,12 +689,67 @@ def sched_body(W, start, prog):
         viol.append(('two-threads-in-io-loop', '%d networking threads were '
                      'inside their I/O loop at the same time'
                      % S.max_in_run))
+    # the last thing any caller asked for was a disconnect (and no listener
+    # reconnects in this program): the connection must end up dead
+    # Calls that overlap in time may take effect in either order, so only
+    # real-time order is judged: a disconnect CALLED after every accepted
+    # connect()/status() had RETURNED (and followed by no further start)
+    # must win; likewise an accepted connect() called after every
+    # disconnect had returned must survive.
+    evs = [(i, ev) for i, ev in enumerate(S.log)
+           if ev[0] in ('call', 'ret')]
+    calls = {ev[1]: i for i, ev in evs if ev[0] == 'call'}
+    retsd = {ev[1]: (i, ev[2]) for i, ev in evs if ev[0] == 'ret'}
+
+    def kind(tag):
+        return tag.split(':')[1]
+    starts_ok = [t for t in retsd if kind(t) in ('connect', 'status')
+                 and retsd[t][1] == 'ok']
+    discs = [t for t in retsd if kind(t) in ('disc', 'disc_imm')]
+    last_disc = max(discs, key=lambda t: calls[t]) if discs else None
+    rets = []
+    if last_disc is not None and retsd[last_disc][1] == 'ok' and all(
+            retsd[t][0] < calls[last_disc] for t in starts_ok) and not any(
+            calls[t] > calls[last_disc] for t in calls
+            if kind(t) in ('connect', 'status')):
+        rets = [('ret', last_disc, 'ok')]
+    last_conn = max((t for t in starts_ok if kind(t) == 'connect'),
+                    key=lambda t: calls[t], default=None)
+    conn_last = last_conn is not None and all(
+        retsd[t][0] < calls[last_conn] for t in discs) and not any(
+        calls[t] > calls[last_conn] for t in calls
+        if kind(t) in ('disc', 'disc_imm', 'status', 'connect'))
+    if rets and 'ka99' not in prog:
+        if S.live():
+            viol.append(('disconnect-lost', 'the last call was %s and it '
+                         'returned normally, yet afterwards the connection '
+                         'is alive: threads %r, reactor %s'
+                         % (rets[-1][1], S.live(),
+                            type(conn.reactor).__name__)))
+    if conn_last and 'ka99' not in prog and not viol:
+        rets = [('ret', last_conn, 'ok')]
+        # the last call was an accepted connect(): that connection must be
+        # up (nobody asked for it to end)
+        srv_l = W.servers[-1] if W.servers else None
+        alive = bool(S.live()) and \
+            type(conn.reactor).__name__ == 'PlayingReactor'
+        if alive:
+            srv_l.play(('keepalive', 4141))
+            W.settle()
+            alive = ('keepalive', 4141) in srv_l.play_rx
+        if not alive:
+            viol.append(('connect-lost', 'the last call was %s, it was '
+                         'accepted, nobody disconnected afterwards, yet the '
+                         'connection is not a live play connection (threads '
+                         '%r, reactor %s, errors %r)'
+                         % (rets[-1][1], S.live(),
+                            type(conn.reactor).__name__, errs)))
     opened = len(W.net.conns) + W.net.refused - base_tcp
     okcalls = sum(1 for k, v in results.items()
                   if v == 'ok' and k.split(':')[1] in ('connect', 'status',
                                                        'reconnect'))
     # (server-side triggers 'srv_*' are not calls of the client API)
-    if opened != okcalls:
+    if opened != okcalls and start != NEGOTIATING:
         viol.append(('tcp-count', '%d TCP connections were opened by %d '
                      'accepted connect()/status() calls (%r)'
                      % (opened, okcalls, results)))
@@ -751,6 +824,12 @@ QUICK_B = {(s, p): 1 for s in STARTS for p in PROGS
            if (p in SERVER_PROGS) == False}
 QUICK_B.update({('play', p): 1 for p in SERVER_PROGS})
 QUICK_B[('play', 'ka99||disc,status')] = 2
+PROGS['disc'] = ([('disc',)], [])
+PROGS['disc_imm'] = ([('disc_imm',)], [])
+QUICK_B[(NEGOTIATING, 'disc')] = 1
+QUICK_B[(NEGOTIATING, 'disc_imm')] = 1
+QUICK_B[(ENCRYPTING, 'disc')] = 1
+QUICK_B[(ENCRYPTING, 'disc_imm')] = 1
 QUICK_B.update({('play', 'connect||disc'): 2, ('fresh', 'connect||connect'): 2})
 
 
